@@ -71,7 +71,7 @@ package preprocessor
 // in URL.Raw is the serialisation taken after the fragment was cleared.
 //@ func NormalizeURL
 //@   attr safety C10
-//@   checks idx slice div assert
+//@   checks idx slice div assert extnil
 //@   property C09
 //@   requires [non-nil] URL != nil && (parentURL != nil ==> parentURL.parsed != nil)
 //@   requires [sentinels] ErrUnsupportedScheme != nil && ErrUnsupportedHost != nil
